@@ -199,6 +199,28 @@ def sign(p, signs):
 
 
 def _sign1(p, signs):
+    """per-monomial sign analysis; symbols are integer valued, so a POS monomial with integer coefficient c is >= c"""
+    c0 = p.t.get((), None)
+    if c0 is not None and len(p.t) > 1:
+        q = Poly({m: c for m, c in p.t.items() if m != ()})
+        cls = [(_sign1(Poly({m: Fraction(1)}), signs), c) for m, c in q.t.items()]
+        if all(c.denominator == 1 for _, c in cls):
+            if all((k in (POS, NONNEG) and c > 0) or (k in (NEG, NONPOS) and c < 0) for k, c in cls):
+                lb = sum(abs(c) for k, c in cls if k in (POS, NEG)) + c0       # p >= lb
+                if lb > 0:
+                    return POS
+                if lb == 0:
+                    return NONNEG
+            if all((k in (POS, NONNEG) and c < 0) or (k in (NEG, NONPOS) and c > 0) for k, c in cls):
+                ub = -sum(abs(c) for k, c in cls if k in (POS, NEG)) + c0      # p <= ub
+                if ub < 0:
+                    return NEG
+                if ub == 0:
+                    return NONPOS
+    return _sign0(p, signs)
+
+
+def _sign0(p, signs):
     classes = []
     for m, c in p.t.items():
         s = POS if c > 0 else NEG
